@@ -100,6 +100,15 @@ def check_extract(b, rexpy, examples, o, size, seed, props, w=None):
         for s in distinct:
             b.check('C03.every-example-matched', any(matches_full(r, s) for r in rex), dict(w, unmatched=s),
                     'example %r is matched in full by none of %r' % (s, rex))
+        if o.get('strip'):
+            # the examples as supplied (with their surrounding whitespace) are matched too: that is what the
+            # \s* padding of the expressions is for
+            items = examples.items() if isinstance(examples, dict) else [(e, 1) for e in examples]
+            for e, n in items:
+                if e is None or n == 0 or (o.get('remove_empties') and len(e.strip()) == 0):
+                    continue
+                b.check('C03.every-example-matched', any(matches_full(r, e) for r in rex), dict(w, unmatched=e),
+                        'example %r (as supplied, strip=True) is matched in full by none of %r' % (e, rex))
     if 'C13' in props:
         for r in rex:
             try:
@@ -274,13 +283,14 @@ def _work(args):
     for examples, oi, si, sd in chunk:
         o = (OPTIONS + C13_EXTRA)[oi]
         size = sizes[si]
-        w = {'examples': list(examples), 'options': o, 'size_variant': si, 'seed': sd}
-        b.case(('extract', tuple(examples), oi, si, sd))
+        isdict = isinstance(examples, dict)
+        w = {'examples': dict(examples) if isdict else list(examples), 'options': o, 'size_variant': si, 'seed': sd}
+        b.case(('extract', tuple(examples.items()) if isdict else tuple(examples), oi, si, sd))
         # unseeded sampling draws from the global generator: make every case reproducible
         random.seed(repr((tuple(examples), oi, si, sd, seed)))
         if any(p in props for p in ('C03', 'C13', 'C18')):
-            check_extract(b, rexpy, list(examples), o, size, sd, props, dict(w))
-        if 'C14' in props and 'max_patterns' not in o:
+            check_extract(b, rexpy, dict(examples) if isdict else list(examples), o, size, sd, props, dict(w))
+        if 'C14' in props and 'max_patterns' not in o and not isdict:
             check_determinism(b, rexpy, list(examples), o, size, sd, dict(w))
     return (b.evaluations, b.distinct, b.samples, b.failures, b.contracts)
 
@@ -310,6 +320,15 @@ def gen_cases(props, tier, seed):
     base.append(['x-' * 60, 'y.' * 60, 'z' * 120, 'z' * 120, 'y' * 120, 'xyz', 'xyq', 'xyq', 'A-1', 'B-2'])
     if 'C14' in props and not any(p in props for p in ('C03', 'C13', 'C18')):
         base = [e for e in base if len(e) <= 4 or len(e) > 20][: (220 if tier == 'quick' else 1500)]
+    # whitespace-only examples: kept (remove_empties off) and stripped to nothing under strip=True
+    for ex in ([' ', 'ab', 'cd'], ['\t', 'ab'], ['  ', 'a1', 'b2', ''], [' ', '  '], ['\xa0', 'x']):
+        for oi, o in enumerate(OPTIONS):
+            if o.get('strip') or oi == 0:
+                cases.append((ex, oi, 0, None))
+    # frequency dictionaries, incl. entries with count 0 (not examples) and nothing but such entries
+    for ex in ({'abc': 0}, {'x-1': 0, '12': 2, '34': 1}, {'A B': 0, 'zz': 1}, {'a1': 3, 'b2': 1, '': 0}, {'q': 0, 'r': 0}):
+        for oi in (0, 1, 2, 10):
+            cases.append((ex, oi, 0, None))
     # a later pass that generalises differently and drops an example only an earlier pass covered (sampled path)
     regress = [['A1', 'AAA1', 'AA1', 'B22', 'abc', 'a-b', '1-2', 'x y']]
     for ex in regress:
